@@ -62,6 +62,9 @@ type vecJ struct {
 	Want  string `json:"want"`
 	Cls   string `json:"cls"`
 	Impl  string `json:"impl"`
+	Pos   string `json:"pos"`
+	Sib   string `json:"sib"`
+	Sibl  string `json:"sibl"`
 }
 
 func hexDigits(s string) []int {
@@ -115,6 +118,9 @@ func spelling(cs *caseT, il litJ) string {
 	if cs.in.via != "" {
 		return "constant." + cs.in.via
 	}
+	if cs.in.pos != "" {
+		return formName(il) + "@" + cs.in.pos
+	}
 	return formName(il)
 }
 
@@ -149,6 +155,8 @@ type checker struct {
 	invalidOK    int
 	llvmAccepted int
 	viaAPI       int // cases whose value went through constant.NewFloat
+	atPosition   map[string]int // Positions: cases per place
+	posAsScalar  int            // failing rows of a place whose printed literal is the scalar path's (reported there)
 }
 
 // judge runs the pipeline on the inputs: LLVM's reading of the inputs, the library, LLVM's
@@ -192,10 +200,10 @@ func (c *checker) judge(ins []input, label string) {
 			c.discardedIn++
 			continue
 		}
-		if seen[in.q.key()+in.via] {
+		if seen[in.q.key()+in.via+in.pos+in.sib] {
 			continue
 		}
-		seen[in.q.key()+in.via] = true
+		seen[in.q.key()+in.via+in.pos+in.sib] = true
 		cases = append(cases, &caseT{in: in, inR: r})
 	}
 	c.llvmAccepted += len(cases)
@@ -204,14 +212,19 @@ func (c *checker) judge(ins []input, label string) {
 	t1 := time.Now()
 	lq := make([]query, len(cases))
 	vals := make([]*float64, len(cases))
+	poss := make([]*input, len(cases))
 	for i, cs := range cases {
 		lq[i] = cs.in.q
+		if cs.in.pos != "" {
+			in := cs.in
+			poss[i] = &in
+		}
 		if cs.in.via == "NewFloat" {
 			v := cs.in.val
 			vals[i] = &v
 		}
 	}
-	libs := runLibrary(lq, vals)
+	libs := runLibrary(lq, vals, poss)
 	tLib := time.Since(t1)
 	// --- LLVM reads the printed literals
 	t2 := time.Now()
@@ -229,7 +242,10 @@ func (c *checker) judge(ins []input, label string) {
 	var rowCase []*caseT
 	for _, cs := range cases {
 		q := cs.in.q
-		rep.Count(q.key()+cs.in.via, true)
+		rep.Count(q.key()+cs.in.via+cs.in.pos+cs.in.sib, true)
+		if cs.in.pos != "" {
+			c.atPosition[cs.in.pos]++
+		}
 		il := parseLit(q.lit)
 		if cs.in.via != "" {
 			c.viaAPI++
@@ -333,6 +349,12 @@ func (c *checker) judge(ins []input, label string) {
 		badSeen[id] = true
 		cs := rowCase[id-1]
 		nbad++
+		if cs.in.pos != "" && cs.lib.out == cs.lib.viaConst {
+			// the literal printed at the place is the one the scalar path prints: the defect of the scalar
+			// path (reported there under its own signature), not one of the place
+			c.posAsScalar++
+			continue
+		}
 		c.changed[cs.in.q.kind]++
 		if cs.in.q.kind == "half" {
 			c.changedHalf[cs.inR.bits] = true
@@ -371,6 +393,9 @@ func (c *checker) fail(sig, what string, cs *caseT) {
 	if cs.in.via != "" {
 		cse["via"], cse["value"] = cs.in.via, strconv.FormatFloat(cs.in.val, 'x', -1, 64)
 	}
+	if cs.in.pos != "" {
+		cse["pos"], cse["sib"], cse["sibl"] = cs.in.pos, cs.in.sib, cs.in.sibl
+	}
 	c.rep.Fail(mbt.Failure{Signature: sig, What: what, Case: cse})
 }
 
@@ -385,7 +410,11 @@ func readVectors(dir string) []input {
 			mbt.Infra("vectors: %v", err)
 		}
 		for _, v := range vs {
-			out = append(out, input{q: query{v.Kind, v.Lit}, tag: v.Tag, fromSpec: true, valid: v.Valid, want: v.Want, cls: v.Cls, impl: v.Impl})
+			in := input{q: query{v.Kind, v.Lit}, tag: v.Tag, fromSpec: true, valid: v.Valid, want: v.Want, cls: v.Cls, impl: v.Impl}
+			if v.Pos != "" && v.Pos != "scalar" {
+				in.pos, in.sib, in.sibl = v.Pos, v.Sib, v.Sibl
+			}
+			out = append(out, in)
 		}
 	}
 	return out
@@ -398,7 +427,7 @@ func Run(tier, replay string) {
 	rep := mbt.NewReport("C10", tier, "model_checking")
 	rep.Rule = "distinct (kind, literal) inputs that LLVM accepts, parsed by asm.ParseString and constant.NewFloatFromString, printed, and judged by TLC: bits(input) = bits(printed), hexadecimal forms read by spec/FloatLit.tla, decimal forms by llvm-as"
 	c := &checker{rep: rep, tier: tier, printedDec: map[string]int{}, printedHex: map[string]int{}, changed: map[string]int{},
-		changedHalf: map[string]bool{}, sigExamples: map[string]string{}, sigCount: map[string]int{}}
+		changedHalf: map[string]bool{}, atPosition: map[string]int{}, sigExamples: map[string]string{}, sigCount: map[string]int{}}
 	rng := rand.New(rand.NewSource(mbt.Seed()))
 
 	if replay != "" {
@@ -443,6 +472,7 @@ func Run(tier, replay string) {
 			rep.Extra["patterns_"+v.q.kind] = inc(rep.Extra["patterns_"+v.q.kind])
 		}
 	}
+	validatePositions(vectors)
 	c.judge(vectors, "spec-vectors")
 	// PowerOfTwoNeighbours: the same values in decimal and through constant.NewFloat
 	p2 := pow2Derived(vectors, tier)
@@ -503,6 +533,7 @@ func (c *checker) finish(halfExhaustive bool) {
 	rep.Extra["inputs_rejected_by_llvm_(outside_quantifier)"] = c.discardedIn
 	rep.Extra["llvm_spawns"] = spawns
 	rep.Extra["values_through_constant.NewFloat"] = c.viaAPI
+	rep.Extra["positions"] = map[string]interface{}{"cases_per_place": c.atPosition, "failing_rows_identical_to_the_scalar_path_(reported_there)": c.posAsScalar}
 	rep.Extra["failing_cases_by_signature"] = c.sigCount
 	rep.Extra["spec_vector_deviations_equal_to_the_AsImplemented_model"] = c.asModelled
 	rep.Extra["spec_vector_deviations_not_modelled_(ppc_fp128_pair_arithmetic)"] = c.notModelled
@@ -546,6 +577,7 @@ func replayInputs(path string) []input {
 				in.via = f.Case["via"]
 				in.val, _ = strconv.ParseFloat(f.Case["value"], 64)
 			}
+			in.pos, in.sib, in.sibl = f.Case["pos"], f.Case["sib"], f.Case["sibl"]
 			out = append(out, in)
 		}
 	}
